@@ -292,9 +292,71 @@ func TestVF_Concurrent(t *testing.T) {
 		c2.violate("deadlock: %d browsers did not finish within %s", nb, dur+30*time.Second)
 	}
 	c2.w.close()
+	// ---- (3) key-set refetch under concurrency: keys loaded, expired and dropped by the cleanup tick,
+	// then two browsers' refreshing requests overlap one slow JWKS fetch
+	c3 := vfNewConc(t, 7200)
+	jwksRounds := 0
+	if vfJWKSetLifetime(c3.t, 120*time.Millisecond) {
+		al := &vfConcBrowser{email: "alice@example.com", jar: map[string]string{}}
+		bo := &vfConcBrowser{email: "bob@example.com", jar: map[string]string{}}
+		if !c3.login(al, "/alice/j") || !c3.login(bo, "/bob/j") {
+			t.Fatalf("phase 3: logins failed")
+		}
+		for round := 0; round < 3; round++ {
+			c3.get(al, "/alice/warm") // loads the key set (fresh ID token from the refresh must be verified)
+			time.Sleep(200 * time.Millisecond)
+			vfJWKCleanup(c3.t)
+			gate, arrived := make(chan struct{}), make(chan struct{}, 1)
+			c3.w.prov.mu.Lock()
+			c3.w.prov.jwksGate, c3.w.prov.jwksArrived = gate, arrived
+			c3.w.prov.mu.Unlock()
+			type out struct {
+				rec *httptest.ResponseRecorder
+				id  string
+			}
+			ach, bch := make(chan out, 1), make(chan out, 1)
+			go func() {
+				rec := httptest.NewRecorder()
+				_, id := c3.send(al, rec, rec, "GET", fmt.Sprintf("/alice/j/%d", round))
+				ach <- out{rec, id}
+			}()
+			select {
+			case <-arrived:
+			case <-time.After(5 * time.Second): // no fetch happened (keys still cached): nothing to overlap
+			}
+			go func() {
+				rec := httptest.NewRecorder()
+				_, id := c3.send(bo, rec, rec, "GET", fmt.Sprintf("/bob/j/%d", round))
+				bch <- out{rec, id}
+			}()
+			time.Sleep(150 * time.Millisecond)
+			c3.w.prov.mu.Lock()
+			c3.w.prov.jwksGate, c3.w.prov.jwksArrived = nil, nil
+			c3.w.prov.mu.Unlock()
+			close(gate)
+			for i, ch := range []chan out{ach, bch} {
+				b, tgt := al, fmt.Sprintf("/alice/j/%d", round)
+				if i == 1 {
+					b, tgt = bo, fmt.Sprintf("/bob/j/%d", round)
+				}
+				select {
+				case o := <-ch:
+					if o.rec.Code != 200 {
+						c3.violate("key-set refetch: %s's authenticated request answered %d while another request was fetching the keys", b.email, o.rec.Code)
+					}
+					c3.check(b, tgt, o.rec, o.id)
+				case <-time.After(20 * time.Second):
+					c3.violate("deadlock: %s's request did not finish after the key-set fetch was released", b.email)
+				}
+			}
+			jwksRounds++
+		}
+	}
+	c3.w.close()
+	res["jwks_refetch_rounds"] = jwksRounds
 	res["stress_requests"] = atomic.LoadInt64(&c2.nreq)
 	res["stress_browsers"] = nb
-	res["violations"] = append(append([]string{}, c.viol...), c2.viol...)
+	res["violations"] = append(append(append([]string{}, c.viol...), c2.viol...), c3.viol...)
 	b, _ := json.Marshal(res)
 	vfWriteJSON(t, "concurrent.json", json.RawMessage(b))
 }
